@@ -700,6 +700,30 @@ pub fn run(r: &mut Runner) {
         })
         .map_err(|e| c.fail("long-key-side-files", e))
     });
+    r.probe("panic:s3.rs:upload-part-copy", |c| {
+        // UploadPartCopy from an empty source object (the whole source, no range): an empty part, not a panic
+        let env = FsEnv::new();
+        block_on(async {
+            env.client_a.create_bucket().bucket("bucket-one").send().await.map_err(|e| format!("{e:?}"))?;
+            env.client_a.put_object().bucket("bucket-one").key("empty").body(ByteStream::from_static(b"")).send().await.map_err(|e| format!("{e:?}"))?;
+            let up = env.client_a.create_multipart_upload().bucket("bucket-one").key("k1").send().await.map_err(|e| format!("{e:?}"))?;
+            let id = up.upload_id().unwrap_or_default().to_owned();
+            match env.client_a.upload_part_copy().bucket("bucket-one").key("k1").upload_id(&id).part_number(1).copy_source("bucket-one/empty").send().await {
+                Ok(_) => {}
+                Err(e) => return Err(format!("UploadPartCopy from an empty object failed: {:?}", err_status(&e))),
+            }
+            // an inverted range is refused as a client error
+            env.client_a.put_object().bucket("bucket-one").key("src").body(ByteStream::from_static(b"0123456789")).send().await.map_err(|e| format!("{e:?}"))?;
+            match env.client_a.upload_part_copy().bucket("bucket-one").key("k1").upload_id(&id).part_number(2).copy_source("bucket-one/src").copy_source_range("bytes=5-2").send().await {
+                Ok(_) => Err("UploadPartCopy with the inverted range bytes=5-2 was accepted".to_owned()),
+                Err(e) => {
+                    let (st, code) = err_status(&e);
+                    if (400..500).contains(&st) { Ok(()) } else { Err(format!("inverted copy range answered {st} {code}")) }
+                }
+            }
+        })
+        .map_err(|e| c.fail("panic:s3.rs:upload-part-copy", e))
+    });
     r.probe("stale-checksum", |c| {
         use base64::Engine as _;
         let env = FsEnv::new();
